@@ -1,5 +1,1064 @@
 import ChemProofs.Model.Formula
 import ChemProofs.Spec.Grammar
+import ChemProofs.Lemmas.Ents
+import ChemProofs.Lemmas.Digits
+import ChemProofs.Lemmas.PStep
+/-
+C01 — a well-formed formula parses to exactly what it denotes.
+
+PROVED (everything in this file is fully proved; core Lean only; standard axioms only):
+
+  theorem parse_render (cc) (hcc : cc.AsciiOK) (T) (hT : SymbolsOK cc T) (ts : Spec.Terms)
+      (hne : ts ≠ .nil) (hwf : WF T ts) :
+      ∃ ents, parseFormula cc T ts.render = .ok ents ∧ (∀ k, ents.get k = ts.denote k) ∧
+              (∀ k ∈ ents.keys, k ∈ ts.mentioned)
+
+  for the FULL grammar (elements with optional isotope and count, arbitrarily nested groups with
+  optional count), together with `parse_render_nodup` (the result has pairwise distinct keys) and
+  `parseA_ok` (any fuel exceeding the length of the text suffices).
+
+Hypotheses (defined here):
+  * `SymbolsOK cc T`: every table element whose symbol begins with an ASCII upper-case letter is stored
+    under its own symbol (`T.find? e.sym = some e`) and has shape `symShape`: non-empty, first character
+    ASCII upper-case, every later character `inert` (`Lemmas/PStep.lean`): not ASCII-upper-case, not
+    `cc.numeric`, not `[` (91), not `(` (40), and — needed, see below — not `)` (41).
+    It is restricted to upper-case-initial symbols because the real table contains the electron `e*`,
+    which the parser can never read (a lower-case first character is an error in state `New`).
+  * `WF T ts`: every `.elem sym iso cnt` has `T.find? sym = some e`, `e.sym = sym`, `isUpperHead sym`
+    (for the same reason), `iso = some i → i ≠ 0 ∧ i ≤ 65535 ∧ (e.iso? i).isSome`,
+    `cnt = some n → n ≤ 2147483647`; every `.group body cnt` has `body ≠ .nil`, `WF T body`,
+    `cnt = some n → n ≤ 2147483647`.
+  Two deviations from the literal task text, both forced by counterexamples:
+    (a) `)` must be excluded from symbol tails: with a symbol `A)` the text `(A))` is cut at the first `)`.
+    (b) the upper-case-initial requirement sits in `WF`, and `SymbolsOK` only speaks about such symbols;
+        otherwise `SymbolsOK` is false of the generated table (`e*`).
+  Both predicates are checkable: `SymbolsOK` is `Decidable`; `WF T ts ↔ wfTermsB T ts = true`
+  (`wfTermsB_iff`, with `Decidable` instances); `symbolsOK_of_ascii` derives `SymbolsOK cc T` for every
+  ASCII-correct `cc` from the `cc`-free Boolean `symbolsOKAscii T` (true of `Gen.table`, see `Inst/C01.lean`).
+
+Structure of the proof (named lemmas):
+  (L1) `Lemmas/Digits.lean`: `digitsVal_natDigits`, `parseI32_natDigits`, `parseU16_natDigits`,
+       `natDigits_ne_nil`, `natDigits_all_digit`.
+  (L2) `Lemmas/PStep.lean`: one lemma per machine step; runs of digits / inert characters; `slice_mid`.
+       Here: `Pending t i p` (the state in which a completely read term waits to be flushed),
+       `elem_pending` / `group_pending` / `term_pending` (reading a term leaves it pending, accumulator
+       untouched), `FlushTo` and `elem_flush` / `group_flush` / `term_flush` (the pending term is flushed
+       by the first character of the next term or by the end of input, adding exactly its denotation).
+  (L3) `skip_term` / `skip_terms`: in state `Group` the machine only counts parentheses and `render` is
+       balanced, so the body slice is exactly `body.render`.
+  (L4) `level` (one nesting level, by recursion on the term list), `parseA_ok` (induction on fuel).
+
+NOT PROVED: nothing of the goal is left open.
+-/
+set_option linter.unusedSimpArgs false
+set_option linter.unusedSectionVars false
 namespace Chem
-theorem placeholder_C01 : True := trivial
+open Spec
+
+/-! ## Hypotheses of the theorem -/
+
+/-- shape of a table symbol: an ASCII upper-case letter followed by characters that are inert for the
+    machine (`inert`, `Lemmas/PStep.lean`: not ASCII-upper-case, not `cc.numeric`, not `[`, `(`, `)`) -/
+def symShape (cc : CharClass) : Sym → Bool
+  | [] => false
+  | c :: rest => isAsciiUpper c && rest.all (inert cc)
+
+/-- does the symbol begin with an ASCII upper-case letter? (the table also holds the electron, `e*`) -/
+def isUpperHead : Sym → Bool
+  | [] => false
+  | c :: _ => isAsciiUpper c
+
+/-- every element of the table whose symbol begins with an upper-case letter is stored under its own
+    symbol, and that symbol is well shaped -/
+def SymbolsOK (cc : CharClass) (T : Table) : Prop :=
+  ∀ e ∈ T, isUpperHead e.sym = true → T.find? e.sym = some e ∧ symShape cc e.sym = true
+
+instance (cc : CharClass) (T : Table) : Decidable (SymbolsOK cc T) := by
+  unfold SymbolsOK; exact inferInstance
+
+def countOK : Option Nat → Prop
+  | none => True
+  | some n => n ≤ 2147483647
+
+def isoOK (e : Elem) : Option Nat → Prop
+  | none => True
+  | some i => i ≠ 0 ∧ i ≤ 65535 ∧ (e.iso? i).isSome = true
+
+mutual
+  def WFt (T : Table) : Term → Prop
+    | .elem sym iso cnt =>
+      (match T.find? sym with
+        | some e => e.sym = sym ∧ isUpperHead sym = true ∧ isoOK e iso
+        | none => False) ∧ countOK cnt
+    | .group body cnt => body ≠ .nil ∧ WF T body ∧ countOK cnt
+  def WF (T : Table) : Terms → Prop
+    | .nil => True
+    | .cons t ts => WFt T t ∧ WF T ts
+end
+
+theorem wft_elem {T : Table} {sym : Sym} {iso cnt : Option Nat} (h : WFt T (.elem sym iso cnt)) :
+    ∃ e, T.find? sym = some e ∧ e.sym = sym ∧ isUpperHead sym = true ∧ isoOK e iso ∧ countOK cnt := by
+  simp only [WFt] at h
+  cases hf : T.find? sym with
+  | none => rw [hf] at h; exact h.1.elim
+  | some e => rw [hf] at h; exact ⟨e, rfl, h.1.1, h.1.2.1, h.1.2.2, h.2⟩
+
+theorem wft_group {T : Table} {body : Terms} {cnt : Option Nat} (h : WFt T (.group body cnt)) :
+    body ≠ .nil ∧ WF T body ∧ countOK cnt := by
+  simpa only [WFt] using h
+
+theorem wf_cons {T : Table} {t : Term} {ts : Terms} (h : WF T (.cons t ts)) : WFt T t ∧ WF T ts := by
+  simpa only [WF] using h
+
+/-! ## Accumulator bookkeeping -/
+
+/-- `acc'` is `acc` with the contribution `d` added, touching only keys of `m` -/
+structure Ext (acc : Ents) (d : Key → Int) (m : List Key) (acc' : Ents) : Prop where
+  nodup : acc'.NoDupKeys
+  get : ∀ k, acc'.get k = acc.get k + d k
+  keys : ∀ k ∈ acc'.keys, k ∈ acc.keys ∨ k ∈ m
+
+theorem Ext.trans {a b c : Ents} {d1 d2 : Key → Int} {m1 m2 : List Key}
+    (h1 : Ext a d1 m1 b) (h2 : Ext b d2 m2 c) : Ext a (fun k => d1 k + d2 k) (m1 ++ m2) c := by
+  refine ⟨h2.nodup, ?_, ?_⟩
+  · intro k; rw [h2.get, h1.get]; omega
+  · intro k hk
+    rcases h2.keys k hk with h | h
+    · rcases h1.keys k h with h | h
+      · exact Or.inl h
+      · exact Or.inr (List.mem_append_left _ h)
+    · exact Or.inr (List.mem_append_right _ h)
+
+theorem ext_inc (acc : Ents) (key : Key) (v : Int) (h : acc.NoDupKeys) :
+    Ext acc (fun k => if k = key then v else 0) [key] (acc.inc key v) := by
+  refine ⟨Ents.nodup_inc acc key v h, fun k => Ents.get_inc acc key v k, ?_⟩
+  intro k hk
+  unfold Ents.inc at hk
+  rw [Ents.keys_set] at hk
+  split at hk
+  · exact Or.inl hk
+  · rcases List.mem_append.1 hk with h | h
+    · exact Or.inl h
+    · exact Or.inr h
+
+theorem keys_addFrom (a b : Ents) (sg : Int) (k : Key) (hk : k ∈ (a.addFrom b sg).keys) :
+    k ∈ a.keys ∨ k ∈ b.keys := by
+  unfold Ents.addFrom at hk
+  induction b generalizing a with
+  | nil => exact Or.inl hk
+  | cons e rest ih =>
+    simp only [List.foldl_cons] at hk
+    rcases ih _ hk with h | h
+    · unfold Ents.inc at h
+      rw [Ents.keys_set] at h
+      split at h
+      · exact Or.inl h
+      · rcases List.mem_append.1 h with h | h
+        · exact Or.inl h
+        · simp only [List.mem_singleton] at h
+          subst h
+          exact Or.inr (by simp [Ents.keys])
+    · exact Or.inr (by simp only [Ents.keys_cons, List.mem_cons]; exact Or.inr h)
+
+theorem ext_addFrom (acc g : Ents) (ha : acc.NoDupKeys) (hg : g.NoDupKeys) :
+    Ext acc (fun k => g.get k) g.keys (acc.addFrom g 1) := by
+  refine ⟨Ents.nodup_addFrom acc g 1 ha, ?_, keys_addFrom acc g 1⟩
+  intro k
+  rw [Ents.get_addFrom, Ents.sumFor_nodup g k hg]; omega
+
+/-- the result of parsing a group body -/
+def SubOK (sub : List Nat → Res Ents) (b : Terms) : Prop :=
+  ∃ g, sub b.render = .ok g ∧ Ext [] b.denote b.mentioned g
+
+/-! ## Flushes -/
+
+section
+variable (cc : CharClass) (T : Table) (sub : List Nat → Res Ents) (s : List Nat)
+
+theorem mkKey_zero (e : Elem) : mkKey e 0 = .ok (e.sym, 0) := by
+  simp [mkKey]
+
+theorem mkKey_iso (e : Elem) (k : Nat) (h : (e.iso? k).isSome = true) : mkKey e k = .ok (e.sym, k) := by
+  cases hh : e.iso? k with
+  | none => rw [hh] at h; cases h
+  | some v => simp [mkKey, hh]
+
+theorem flushElem_ok {p : PState} {acc : Ents} {sym : Sym} {e : Elem}
+    (hsl : slice s p.es p.ee = .ok sym) (hf : T.find? sym = some e) :
+    ∃ p2, flushElem T s p acc = .ok (p2, acc.inc (e.sym, 0) 1) ∧
+      p2.is = p.is ∧ p2.ie = p.ie ∧ p2.paren = p.paren := by
+  refine ⟨{ p with es := 0, ee := 0 }, ?_, rfl, rfl, rfl⟩
+  simp only [flushElem, lookupElem, hsl, Res.ok_bind, hf]
+
+theorem flushCount_noiso_ok {p : PState} {acc : Ents} {sym : Sym} {e : Elem} {n : Nat}
+    (hc : slice s p.cs p.ce = .ok (natDigits n)) (hn : n ≤ 2147483647)
+    (his : p.is = 0) (hie : p.ie = 0)
+    (hsl : slice s p.es p.ee = .ok sym) (hf : T.find? sym = some e) :
+    ∃ p2, flushCount T s p acc = .ok (p2, acc.inc (e.sym, 0) (n : Int)) ∧
+      p2.is = 0 ∧ p2.ie = 0 ∧ p2.paren = p.paren := by
+  refine ⟨{ p with cs := 0, ce := 0, es := 0, ee := 0, is := 0, ie := 0 }, ?_, rfl, rfl, rfl⟩
+  simp only [flushCount, elemCount, hc, Res.ok_bind, parseI32_natDigits n hn, his, hie, bne_self_eq_false,
+    lookupElem, hsl, hf]
+  rfl
+
+theorem flushCount_iso_ok {p : PState} {acc : Ents} {sym : Sym} {e : Elem} {n k : Nat}
+    (hc : slice s p.cs p.ce = .ok (natDigits n)) (hn : n ≤ 2147483647)
+    (hne : p.ie ≠ p.is) (hisl : slice s p.is p.ie = .ok (natDigits k)) (hk : k ≤ 65535)
+    (hiso : (e.iso? k).isSome = true)
+    (hsl : slice s p.es p.ee = .ok sym) (hf : T.find? sym = some e) :
+    ∃ p2, flushCount T s p acc = .ok (p2, acc.inc (e.sym, k) (n : Int)) ∧
+      p2.is = 0 ∧ p2.ie = 0 ∧ p2.paren = p.paren := by
+  refine ⟨{ p with cs := 0, ce := 0, es := 0, ee := 0, is := 0, ie := 0 }, ?_, rfl, rfl, rfl⟩
+  have hne' : (p.ie != p.is) = true := by simpa using hne
+  simp only [flushCount, elemCount, hc, Res.ok_bind, parseI32_natDigits n hn, hne', if_true,
+    isoNumber, hisl, parseU16_natDigits k hk, lookupElem, hsl, hf, mkKey_iso e k hiso]
+
+theorem flushIso_ok {p : PState} {acc : Ents} {sym : Sym} {e : Elem} {k : Nat}
+    (hisl : slice s p.is p.ie = .ok (natDigits k)) (hk : k ≤ 65535)
+    (hiso : (e.iso? k).isSome = true)
+    (hsl : slice s p.es p.ee = .ok sym) (hf : T.find? sym = some e) :
+    ∃ p2, flushIso T s p acc = .ok (p2, acc.inc (e.sym, k) 1) ∧
+      p2.is = 0 ∧ p2.ie = 0 ∧ p2.paren = p.paren := by
+  refine ⟨{ p with es := 0, ee := 0, is := 0, ie := 0 }, ?_, rfl, rfl, rfl⟩
+  simp only [flushIso, lookupElem, hsl, Res.ok_bind, hf, isoNumber, hisl, parseU16_natDigits k hk,
+    mkKey_iso e k hiso]
+
+theorem groupCount_ok {p : PState} {n : Nat}
+    (hc : slice s p.gcs p.gce = .ok (natDigits n)) (hn : n ≤ 2147483647) :
+    groupCount s p = .ok ((n : Int), { p with gcs := 0, gce := 0 }) := by
+  simp only [groupCount, hc, Res.ok_bind, parseI32_natDigits n hn]
+
+/-! ## Start states -/
+
+/-- a character that starts a term -/
+def Starts (c : Nat) : Prop := isUpperStart c = true ∨ c = 40
+
+/-- the machine state just after the first character `c` (at position `j`) of a term was read -/
+def StartAt (c j : Nat) (p : PState) : Prop :=
+  p.is = 0 ∧ p.ie = 0 ∧
+  ((isUpperStart c = true ∧ p.st = .element ∧ p.es = j ∧ p.paren = 0) ∨
+   (c = 40 ∧ p.st = .group ∧ p.gs = j + 1 ∧ p.paren = 1))
+
+theorem afterTerm_start {p : PState} {j c : Nat} (b : Bool) (up : Nat → Bool)
+    (hup : isUpperStart c = true → up c = true)
+    (his : p.is = 0) (hie : p.ie = 0) (hp : p.paren = 0) (hc : Starts c) :
+    ∃ p', afterTerm p j c b up = .ok p' ∧ StartAt c j p' := by
+  rcases hc with hc | hc
+  · have h40 : (c == 40) = false := by simpa using (upperStart_facts hc).2.2.1
+    refine ⟨{ p with es := j, st := .element }, ?_, his, hie, Or.inl ⟨hc, rfl, rfl, hp⟩⟩
+    simp only [afterTerm, h40, hup hc, if_true]
+    rfl
+  · subst hc
+    refine ⟨{ p with paren := if b then 1 else p.paren + 1, gs := j + 1, st := .group }, ?_, his, hie,
+      Or.inr ⟨rfl, rfl, rfl, ?_⟩⟩
+    · simp [afterTerm]
+    · show (if b then 1 else p.paren + 1) = 1
+      rw [hp]; cases b <;> rfl
+
+theorem step_new_start {p : PState} {acc : Ents} {j c : Nat} (hst : p.st = .new)
+    (his : p.is = 0) (hie : p.ie = 0) (hp : p.paren = 0) (hc : Starts c) :
+    ∃ p', pstep cc T sub s p acc j c = .ok (p', acc) ∧ StartAt c j p' := by
+  rcases hc with hc | hc
+  · refine ⟨{ p with es := j, st := .element }, ?_, his, hie, Or.inl ⟨hc, rfl, rfl, hp⟩⟩
+    unfold pstep
+    simp only [hst, hc, if_true]
+  · subst hc
+    refine ⟨{ p with paren := p.paren + 1, gs := j + 1, st := .group }, ?_, his, hie,
+      Or.inr ⟨rfl, rfl, rfl, ?_⟩⟩
+    · unfold pstep
+      simp only [hst]
+      simp [isUpperStart, isAsciiAlpha, isAsciiUpper, isAsciiLower]
+    · show p.paren + 1 = 1
+      rw [hp]; rfl
+
+end
+
+/-! ## Rendering facts -/
+
+def isoR : Option Nat → List Nat
+  | none => []
+  | some i => 91 :: (natDigits i ++ [93])
+
+theorem render_elem (sym : Sym) (iso cnt : Option Nat) :
+    (Term.elem sym iso cnt).render = sym ++ (isoR iso ++ renderCount cnt) := by
+  cases iso <;> simp [Term.render, isoR]
+
+theorem render_group (body : Terms) (cnt : Option Nat) :
+    (Term.group body cnt).render = 40 :: (body.render ++ 41 :: renderCount cnt) := by
+  simp [Term.render]
+
+theorem render_cons (t : Term) (ts : Terms) : (Terms.cons t ts).render = t.render ++ ts.render := by
+  simp [Terms.render]
+
+theorem render_nil : Terms.nil.render = [] := by simp [Terms.render]
+
+theorem symShape_cons {cc : CharClass} {sym : Sym} (h : symShape cc sym = true) :
+    ∃ c0 symtl, sym = c0 :: symtl ∧ isAsciiUpper c0 = true ∧ ∀ c ∈ symtl, inert cc c = true := by
+  cases sym with
+  | nil => simp [symShape] at h
+  | cons c0 symtl =>
+    simp only [symShape, Bool.and_eq_true, List.all_eq_true] at h
+    exact ⟨c0, symtl, rfl, h.1, h.2⟩
+
+theorem inert_ne {cc : CharClass} {c : Nat} (h : inert cc c = true) : c ≠ 40 ∧ c ≠ 41 := by
+  simp only [inert, Bool.and_eq_true, bne_iff_ne, ne_eq] at h
+  exact ⟨h.1.2, h.2⟩
+
+theorem find_mem {T : Table} {sym : Sym} {e : Elem} (h : T.find? sym = some e) : e ∈ T :=
+  List.mem_of_find?_eq_some h
+
+/-- everything the hypotheses say about an element term -/
+theorem elem_facts {cc : CharClass} {T : Table} (hT : SymbolsOK cc T) {sym : Sym} {iso cnt : Option Nat}
+    (h : WFt T (.elem sym iso cnt)) :
+    ∃ e c0 symtl, T.find? sym = some e ∧ e.sym = sym ∧ isoOK e iso ∧ countOK cnt ∧
+      sym = c0 :: symtl ∧ isAsciiUpper c0 = true ∧ ∀ c ∈ symtl, inert cc c = true := by
+  obtain ⟨e, hf, hsym, hhead, hiso, hcnt⟩ := wft_elem h
+  have hsh := (hT e (find_mem hf) (by rw [hsym]; exact hhead)).2
+  rw [hsym] at hsh
+  obtain ⟨c0, symtl, h1, h2, h3⟩ := symShape_cons hsh
+  exact ⟨e, c0, symtl, hf, hsym, hiso, hcnt, h1, h2, h3⟩
+
+theorem digits_tail {n d : Nat} {ds : List Nat} (hd : natDigits n = d :: ds) :
+    ∀ c ∈ ds, isAsciiDigit c = true := by
+  intro c hc
+  apply natDigits_all_digit n
+  rw [hd]; exact List.mem_cons_of_mem _ hc
+
+/-! ## The state in which a completely read term is pending -/
+
+def Pending : Term → Nat → PState → Prop
+  | .elem _ none none, i, p =>
+    p.st = .element ∧ p.es = i ∧ p.is = 0 ∧ p.ie = 0 ∧ p.paren = 0
+  | .elem sym none (some _), i, p =>
+    p.st = .count ∧ p.es = i ∧ p.ee = i + sym.length ∧ p.cs = i + sym.length ∧
+      p.is = 0 ∧ p.ie = 0 ∧ p.paren = 0
+  | .elem sym (some k) none, i, p =>
+    p.st = .isotopeToCount ∧ p.es = i ∧ p.ee = i + sym.length ∧ p.is = i + sym.length + 1 ∧
+      p.ie = i + sym.length + 1 + (natDigits k).length ∧ p.paren = 0
+  | .elem sym (some k) (some _), i, p =>
+    p.st = .count ∧ p.es = i ∧ p.ee = i + sym.length ∧ p.is = i + sym.length + 1 ∧
+      p.ie = i + sym.length + 1 + (natDigits k).length ∧
+      p.cs = i + sym.length + 1 + (natDigits k).length + 1 ∧ p.paren = 0
+  | .group body none, i, p =>
+    p.st = .groupToGroupCount ∧ p.gs = i + 1 ∧ p.ge = i + 1 + body.render.length ∧
+      p.is = 0 ∧ p.ie = 0 ∧ p.paren = 0
+  | .group body (some _), i, p =>
+    p.st = .groupCount ∧ p.gs = i + 1 ∧ p.ge = i + 1 + body.render.length ∧
+      p.gcs = i + 1 + body.render.length + 1 ∧ p.is = 0 ∧ p.ie = 0 ∧ p.paren = 0
+
+section
+variable (cc : CharClass) (hcc : cc.AsciiOK) (T : Table) (hT : SymbolsOK cc T)
+  (sub : List Nat → Res Ents) (s : List Nat)
+include hcc hT
+
+/-- reading the rest of an element term -/
+theorem elem_pending {sym : Sym} {iso cnt : Option Nat} (hwf : WFt T (.elem sym iso cnt))
+    {c : Nat} {tl : List Nat} (hr : (Term.elem sym iso cnt).render = c :: tl)
+    {i : Nat} {p : PState} (acc : Ents) (hstart : StartAt c i p) :
+    ∃ p', ploop cc T sub s tl (i + 1) p acc = .ok (p', acc) ∧ Pending (.elem sym iso cnt) i p' := by
+  obtain ⟨e, c0, symtl, hf, hsym, hiso, hcnt, hs0, hup, hin⟩ := elem_facts hT hwf
+  rw [render_elem, hs0, List.cons_append] at hr
+  injection hr with hc htl
+  subst hc
+  obtain ⟨his, hie, hbr⟩ := hstart
+  have hus := isUpperStart_of_upper hup
+  have hbr' : p.st = .element ∧ p.es = i ∧ p.paren = 0 := by
+    rcases hbr with ⟨_, h⟩ | ⟨h40, _⟩
+    · exact h
+    · exact absurd h40 (upperStart_facts hus).2.2.1
+  obtain ⟨hst, hes, hpar⟩ := hbr'
+  have hlen : sym.length = symtl.length + 1 := by rw [hs0]; rfl
+  have h1 := ploop_inert_elem cc T sub s (acc := acc) (i + 1) hst hin
+  cases iso with
+  | none =>
+    cases cnt with
+    | none =>
+      simp only [isoR, renderCount, List.append_nil] at htl
+      subst htl
+      exact ⟨p, h1, hst, hes, his, hie, hpar⟩
+    | some n =>
+      obtain ⟨d, ds, hd, hdig⟩ := natDigits_cons n
+      simp only [isoR, renderCount, List.nil_append, hd] at htl
+      subst htl
+      rw [ploop_append_ok cc T sub s h1,
+        ploop_cons_ok cc T sub s (step_elem_digit cc T sub s hcc _ hst hdig)]
+      refine ⟨_, ploop_digits_count cc T sub s hcc _ rfl (digits_tail hd), rfl, hes, ?_, ?_, his, hie, hpar⟩
+      · show i + 1 + symtl.length = i + sym.length
+        omega
+      · show i + 1 + symtl.length = i + sym.length
+        omega
+  | some k =>
+    have hkd := natDigits_all_digit k
+    cases cnt with
+    | none =>
+      simp only [isoR, renderCount, List.append_nil] at htl
+      subst htl
+      rw [ploop_append_ok cc T sub s h1,
+        ploop_cons_ok cc T sub s (step_elem_lbr cc T sub s hcc _ hst),
+        ploop_append_ok cc T sub s (ploop_digits_iso cc T sub s hcc _ rfl hkd),
+        ploop_cons_ok cc T sub s (step_iso_rbr cc T sub s _ rfl)]
+      refine ⟨_, rfl, rfl, hes, ?_, ?_, ?_, hpar⟩
+      · show i + 1 + symtl.length = i + sym.length
+        omega
+      · show i + 1 + symtl.length + 1 = i + sym.length + 1
+        omega
+      · show i + 1 + symtl.length + 1 + (natDigits k).length = i + sym.length + 1 + (natDigits k).length
+        omega
+    | some n =>
+      obtain ⟨d, ds, hd, hdig⟩ := natDigits_cons n
+      simp only [isoR, renderCount, List.cons_append, List.append_assoc, List.nil_append, hd] at htl
+      subst htl
+      rw [ploop_append_ok cc T sub s h1,
+        ploop_cons_ok cc T sub s (step_elem_lbr cc T sub s hcc _ hst),
+        ploop_append_ok cc T sub s (ploop_digits_iso cc T sub s hcc _ rfl hkd),
+        ploop_cons_ok cc T sub s (step_iso_rbr cc T sub s _ rfl),
+        ploop_cons_ok cc T sub s (step_i2c_digit cc T sub s hcc _ rfl hdig)]
+      refine ⟨_, ploop_digits_count cc T sub s hcc _ rfl (digits_tail hd), rfl, hes, ?_, ?_, ?_, ?_, hpar⟩
+      · show i + 1 + symtl.length = i + sym.length
+        omega
+      · show i + 1 + symtl.length + 1 = i + sym.length + 1
+        omega
+      · show i + 1 + symtl.length + 1 + (natDigits k).length = i + sym.length + 1 + (natDigits k).length
+        omega
+      · show i + 1 + symtl.length + 1 + (natDigits k).length + 1
+          = i + sym.length + 1 + (natDigits k).length + 1
+        omega
+
+end
+
+/-! ## Groups: the machine only counts parentheses -/
+
+theorem isoR_flat (iso : Option Nat) : ∀ c ∈ isoR iso, c ≠ 40 ∧ c ≠ 41 := by
+  intro c hc
+  cases iso with
+  | none => simp [isoR] at hc
+  | some k =>
+    simp only [isoR, List.mem_cons, List.mem_append, List.not_mem_nil, or_false] at hc
+    rcases hc with h | h | h
+    · subst h; decide
+    · have := digit_facts (natDigits_all_digit k c h); exact ⟨this.2.2.1, this.2.2.2.1⟩
+    · subst h; decide
+
+theorem renderCount_flat (cnt : Option Nat) : ∀ c ∈ renderCount cnt, c ≠ 40 ∧ c ≠ 41 := by
+  intro c hc
+  cases cnt with
+  | none => simp [renderCount] at hc
+  | some n =>
+    have := digit_facts (natDigits_all_digit n c hc); exact ⟨this.2.2.1, this.2.2.2.1⟩
+
+theorem renderCount_digits (cnt : Option Nat) : ∀ c ∈ renderCount cnt, isAsciiDigit c = true := by
+  intro c hc
+  cases cnt with
+  | none => simp [renderCount] at hc
+  | some n => exact natDigits_all_digit n c hc
+
+theorem elem_flat {cc : CharClass} {T : Table} (hT : SymbolsOK cc T) {sym : Sym} {iso cnt : Option Nat}
+    (hwf : WFt T (.elem sym iso cnt)) : ∀ c ∈ (Term.elem sym iso cnt).render, c ≠ 40 ∧ c ≠ 41 := by
+  obtain ⟨e, c0, symtl, hf, hsym, hiso, hcnt, hs0, hup, hin⟩ := elem_facts hT hwf
+  intro c hc
+  rw [render_elem, hs0] at hc
+  simp only [List.mem_cons, List.mem_append] at hc
+  rcases hc with (h | h) | h | h
+  · subst h
+    have := upperStart_facts (isUpperStart_of_upper hup)
+    exact ⟨this.2.2.1, this.2.2.2⟩
+  · exact inert_ne (hin c h)
+  · exact isoR_flat iso c h
+  · exact renderCount_flat cnt c h
+
+section
+variable (cc : CharClass) (T : Table) (hT : SymbolsOK cc T)
+  (sub : List Nat → Res Ents) (s : List Nat)
+include hT
+
+mutual
+  theorem skip_term : (t : Term) → WFt T t → ∀ (i : Nat) (p : PState) (acc : Ents),
+      p.st = .group → 1 ≤ p.paren → ploop cc T sub s t.render i p acc = .ok (p, acc)
+    | .elem sym iso cnt, hwf, i, p, acc, hst, _ =>
+      ploop_group_flat cc T sub s i hst (elem_flat hT hwf)
+    | .group body cnt, hwf, i, p, acc, hst, hp => by
+      obtain ⟨_, hwfb, _⟩ := wft_group hwf
+      rw [render_group, ploop_cons_ok cc T sub s (step_group_open cc T sub s i hst),
+        ploop_append_ok cc T sub s
+          (skip_terms body hwfb (i + 1) { p with paren := p.paren + 1 } acc hst
+            (by show 1 ≤ p.paren + 1; omega)),
+        ploop_cons_ok cc T sub s (step_group_close_ne cc T sub s (p := { p with paren := p.paren + 1 }) _ hst
+            (by show p.paren + 1 - 1 ≠ 0; omega))]
+      have hp2 : ({ p with paren := p.paren + 1 - 1 } : PState) = p := by
+        cases p; simp only [PState.mk.injEq, and_true, true_and]; omega
+      show ploop cc T sub s (renderCount cnt) _ { p with paren := p.paren + 1 - 1 } acc = _
+      rw [hp2]
+      exact ploop_group_flat cc T sub s _ hst (renderCount_flat cnt)
+  theorem skip_terms : (ts : Terms) → WF T ts → ∀ (i : Nat) (p : PState) (acc : Ents),
+      p.st = .group → 1 ≤ p.paren → ploop cc T sub s ts.render i p acc = .ok (p, acc)
+    | .nil, _, i, p, acc, _, _ => by rw [render_nil]; rfl
+    | .cons t ts, hwf, i, p, acc, hst, hp => by
+      rw [render_cons, ploop_append_ok cc T sub s (skip_term t (wf_cons hwf).1 i p acc hst hp)]
+      exact skip_terms ts (wf_cons hwf).2 _ p acc hst hp
+end
+
+end
+
+section
+variable (cc : CharClass) (hcc : cc.AsciiOK) (T : Table) (hT : SymbolsOK cc T)
+  (sub : List Nat → Res Ents) (s : List Nat)
+include hcc hT
+
+/-- reading the rest of a group term -/
+theorem group_pending {body : Terms} {cnt : Option Nat} (hwf : WFt T (.group body cnt))
+    {c : Nat} {tl : List Nat} (hr : (Term.group body cnt).render = c :: tl)
+    {i : Nat} {p : PState} (acc : Ents) (hstart : StartAt c i p) :
+    ∃ p', ploop cc T sub s tl (i + 1) p acc = .ok (p', acc) ∧ Pending (.group body cnt) i p' := by
+  obtain ⟨_, hwfb, _⟩ := wft_group hwf
+  rw [render_group] at hr
+  injection hr with hc htl
+  subst hc
+  obtain ⟨his, hie, hbr⟩ := hstart
+  have hbr' : p.st = .group ∧ p.gs = i + 1 ∧ p.paren = 1 := by
+    rcases hbr with ⟨h, _⟩ | ⟨_, h⟩
+    · exact absurd h (by decide)
+    · exact h
+  obtain ⟨hst, hgs, hpar⟩ := hbr'
+  have h1 := skip_terms cc T hT sub s body hwfb (i + 1) p acc hst (by omega)
+  cases cnt with
+  | none =>
+    simp only [renderCount] at htl
+    subst htl
+    rw [ploop_append_ok cc T sub s h1, ploop_cons_ok cc T sub s (step_group_close_z cc T sub s _ hst hpar)]
+    exact ⟨_, rfl, rfl, hgs, rfl, his, hie, rfl⟩
+  | some n =>
+    obtain ⟨d, ds, hd, hdig⟩ := natDigits_cons n
+    simp only [renderCount, hd] at htl
+    subst htl
+    rw [ploop_append_ok cc T sub s h1, ploop_cons_ok cc T sub s (step_group_close_z cc T sub s _ hst hpar),
+      ploop_cons_ok cc T sub s (step_g2gc_digit cc T sub s hcc _ rfl hdig)]
+    exact ⟨_, ploop_digits_gc cc T sub s hcc _ rfl (digits_tail hd), rfl, hgs, rfl, rfl, his, hie, rfl⟩
+
+/-- (L2/L3) reading the rest of any term leaves it pending, the accumulator untouched -/
+theorem term_pending (t : Term) (hwf : WFt T t) {c : Nat} {tl : List Nat} (hr : t.render = c :: tl)
+    {i : Nat} {p : PState} (acc : Ents) (hstart : StartAt c i p) :
+    ∃ p', ploop cc T sub s tl (i + 1) p acc = .ok (p', acc) ∧ Pending t i p' := by
+  cases t with
+  | elem sym iso cnt => exact elem_pending cc hcc T hT sub s hwf hr acc hstart
+  | group body cnt => exact group_pending cc hcc T hT sub s hwf hr acc hstart
+
+end
+
+/-! ## Flushing a pending term: at the next term's first character, or at the end of input -/
+
+theorem starts_not_numeric {cc : CharClass} (hcc : cc.AsciiOK) {c : Nat} (hc : Starts c) :
+    cc.numeric c = false := by
+  have hlt : c < 128 ∧ isAsciiDigit c = false := by
+    rcases hc with h | h
+    · have := (upperStart_facts h).2.1
+      simp only [isAsciiUpper, Bool.and_eq_true, decide_eq_true_eq] at this
+      refine ⟨by omega, ?_⟩
+      simp only [isAsciiDigit, Bool.and_eq_false_iff, decide_eq_false_iff_not]; omega
+    · subst h; exact ⟨by omega, by decide⟩
+  rw [(hcc c hlt.1).2.1]; exact hlt.2
+
+section
+variable (cc : CharClass) (hcc : cc.AsciiOK) (T : Table) (sub : List Nat → Res Ents) (s : List Nat)
+
+/-- from state `p` with accumulator `acc`, the term pending at `j` is flushed into `acc'` both by the
+    first character of a following term and by the end of the input -/
+def FlushTo (p : PState) (acc : Ents) (j : Nat) (acc' : Ents) : Prop :=
+  (∀ c, Starts c → ∃ p', pstep cc T sub s p acc j c = .ok (p', acc') ∧ StartAt c j p') ∧
+  (s.length = j → pfinish T sub s p acc = .ok acc')
+
+include hcc
+
+theorem elem_flushTo {p : PState} {acc acc' : Ents} {j : Nat} (hst : p.st = .element)
+    (hfl : ∃ p2, flushElem T s { p with ee := j } acc = .ok (p2, acc') ∧
+      p2.is = 0 ∧ p2.ie = 0 ∧ p2.paren = 0) : FlushTo cc T sub s p acc j acc' := by
+  obtain ⟨p2, hfl, his, hie, hpar⟩ := hfl
+  simp only [hst] at hfl
+  constructor
+  · intro c hc
+    rcases hc with hc | hc
+    · have hf := upperStart_facts hc
+      refine ⟨{ p2 with st := .element, es := j, ee := 0 }, ?_, his, hie, Or.inl ⟨hc, rfl, rfl, hpar⟩⟩
+      unfold pstep
+      simp only [hst, hf.1, hf.2.1, if_true, hfl, Res.ok_bind]
+    · subst hc
+      refine ⟨{ p2 with paren := p2.paren + 1, gs := j + 1, st := .group }, ?_, his, hie,
+        Or.inr ⟨rfl, rfl, rfl, by show p2.paren + 1 = 1; rw [hpar]; rfl⟩⟩
+      have hn : cc.numeric 40 = false := starts_not_numeric hcc (Or.inr rfl)
+      have ha : isAsciiAlpha 40 = false := by decide
+      unfold pstep
+      simp only [hst, ha, hn]
+      simp [hfl]
+  · intro hlen
+    unfold pfinish
+    simp only [hst, hlen, hfl, Res.ok_bind]
+
+theorem count_flushTo {p : PState} {acc acc' : Ents} {j : Nat} (hst : p.st = .count)
+    (hfl : ∃ p2, flushCount T s { p with ce := j } acc = .ok (p2, acc') ∧
+      p2.is = 0 ∧ p2.ie = 0 ∧ p2.paren = 0) : FlushTo cc T sub s p acc j acc' := by
+  obtain ⟨p2, hfl, his, hie, hpar⟩ := hfl
+  simp only [hst] at hfl
+  constructor
+  · intro c hc
+    obtain ⟨p', hp', hs'⟩ := afterTerm_start (j := j) true isUpperStart (fun h => h) his hie hpar hc
+    refine ⟨p', ?_, hs'⟩
+    unfold pstep
+    simp only [hst, starts_not_numeric hcc hc, Bool.not_false, if_true, hfl, Res.ok_bind, hp']
+  · intro hlen
+    unfold pfinish
+    simp only [hst, hlen, hfl, Res.ok_bind]
+
+theorem i2c_flushTo {p : PState} {acc acc' : Ents} {j : Nat} (hst : p.st = .isotopeToCount)
+    (hfl : ∃ p2, flushIso T s p acc = .ok (p2, acc') ∧
+      p2.is = 0 ∧ p2.ie = 0 ∧ p2.paren = 0) : FlushTo cc T sub s p acc j acc' := by
+  obtain ⟨p2, hfl, his, hie, hpar⟩ := hfl
+  constructor
+  · intro c hc
+    obtain ⟨p', hp', hs'⟩ := afterTerm_start (j := j) false isAsciiUpper
+      (fun h => (upperStart_facts h).2.1) his hie hpar hc
+    refine ⟨p', ?_, hs'⟩
+    unfold pstep
+    simp only [hst, starts_not_numeric hcc hc, hfl, Res.ok_bind, hp']
+    simp
+  · intro hlen
+    unfold pfinish
+    simp only [hst, hfl, Res.ok_bind]
+
+theorem g2gc_flushTo {p : PState} {acc g : Ents} {j : Nat} {body : List Nat}
+    (hst : p.st = .groupToGroupCount) (hsl : slice s p.gs p.ge = .ok body) (hsub : sub body = .ok g)
+    (his : p.is = 0) (hie : p.ie = 0) (hpar : p.paren = 0) :
+    FlushTo cc T sub s p acc j (acc.addFrom g 1) := by
+  constructor
+  · intro c hc
+    obtain ⟨p', hp', hs'⟩ := afterTerm_start (p := { p with gs := 0, ge := 0 }) (j := j) true isUpperStart
+      (fun h => h) his hie hpar hc
+    simp only [hst] at hp'
+    refine ⟨p', ?_, hs'⟩
+    unfold pstep
+    simp only [hst, starts_not_numeric hcc hc, Bool.not_false, if_true, hsl, hsub, Res.ok_bind, hp']
+  · intro hlen
+    unfold pfinish
+    simp only [hst, hsl, hsub, Res.ok_bind]
+
+theorem gc_flushTo {p : PState} {acc g : Ents} {j n : Nat} {body : List Nat}
+    (hst : p.st = .groupCount) (hsl : slice s p.gs p.ge = .ok body) (hsub : sub body = .ok g)
+    (hgc : slice s p.gcs j = .ok (natDigits n)) (hn : n ≤ 2147483647)
+    (his : p.is = 0) (hie : p.ie = 0) (hpar : p.paren = 0) :
+    FlushTo cc T sub s p acc j (acc.addFrom (g.mapCounts ((n : Int) * ·)) 1) := by
+  have hg := groupCount_ok s (p := { p with gce := j, gs := 0, ge := 0 }) hgc hn
+  simp only [hst] at hg
+  constructor
+  · intro c hc
+    obtain ⟨p', hp', hs'⟩ := afterTerm_start
+      (p := { p with gce := 0, gs := 0, ge := 0, gcs := 0 }) (j := j) true isUpperStart
+      (fun h => h) his hie hpar hc
+    simp only [hst] at hp'
+    refine ⟨p', ?_, hs'⟩
+    unfold pstep
+    simp only [hst, starts_not_numeric hcc hc, Bool.not_false, if_true, hsl, hsub, Res.ok_bind, hg, hp']
+  · intro hlen
+    unfold pfinish
+    simp only [hst, hlen, hsl, hsub, Res.ok_bind, hg]
+
+end
+
+/-! ## What a flushed term adds to the accumulator -/
+
+theorem ext_elem (acc : Ents) (sym : Sym) (iso cnt : Option Nat) (hacc : acc.NoDupKeys) :
+    Ext acc (Term.elem sym iso cnt).denote (Term.elem sym iso cnt).mentioned
+      (acc.inc (sym, iso.getD 0) ((cnt.getD 1 : Nat) : Int)) := by
+  have h := ext_inc acc (sym, iso.getD 0) ((cnt.getD 1 : Nat) : Int) hacc
+  have hd : (Term.elem sym iso cnt).denote
+      = fun k => if k = (sym, iso.getD 0) then ((cnt.getD 1 : Nat) : Int) else 0 := by
+    funext k; simp only [Term.denote]
+  have hm : (Term.elem sym iso cnt).mentioned = [(sym, iso.getD 0)] := by simp only [Term.mentioned]
+  rw [hd, hm]; exact h
+
+theorem ext_group (acc g : Ents) (body : Terms) (cnt : Option Nat) (m : Int)
+    (hm : m = ((cnt.getD 1 : Nat) : Int)) (hacc : acc.NoDupKeys)
+    (hg : Ext [] body.denote body.mentioned g) :
+    Ext acc (Term.group body cnt).denote (Term.group body cnt).mentioned
+      (acc.addFrom (g.mapCounts (m * ·)) 1) := by
+  have h := ext_addFrom acc (g.mapCounts (m * ·)) hacc (Ents.nodup_mapCounts g _ hg.nodup)
+  refine ⟨h.nodup, ?_, ?_⟩
+  · intro k
+    rw [h.get, Ents.get_mapCounts_mul, hg.get]
+    simp only [Term.denote, Ents.get_nil, Int.zero_add, hm]
+  · intro k hk
+    rcases h.keys k hk with h1 | h1
+    · exact Or.inl h1
+    · rw [Ents.keys_mapCounts] at h1
+      rcases hg.keys k h1 with h2 | h2
+      · simp [Ents.keys] at h2
+      · exact Or.inr (by simpa only [Term.mentioned] using h2)
+
+theorem mapCounts_one (g : Ents) : g.mapCounts ((1 : Int) * ·) = g := by
+  unfold Ents.mapCounts
+  induction g with
+  | nil => rfl
+  | cons e rest ih => rw [List.map_cons, ih]; simp
+
+section
+variable (cc : CharClass) (hcc : cc.AsciiOK) (T : Table) (hT : SymbolsOK cc T)
+  (sub : List Nat → Res Ents) (s : List Nat)
+include hcc hT
+
+theorem elem_flush {sym : Sym} {iso cnt : Option Nat} (hwf : WFt T (.elem sym iso cnt))
+    {pre rest : List Nat} (hs : s = pre ++ (Term.elem sym iso cnt).render ++ rest) {p : PState}
+    (hpend : Pending (.elem sym iso cnt) pre.length p) {acc : Ents} (hacc : acc.NoDupKeys) :
+    ∃ acc', FlushTo cc T sub s p acc (pre.length + (Term.elem sym iso cnt).render.length) acc' ∧
+      Ext acc (Term.elem sym iso cnt).denote (Term.elem sym iso cnt).mentioned acc' := by
+  obtain ⟨e, c0, symtl, hf, hsym, hiso, hcnt, -, -, -⟩ := elem_facts hT hwf
+  refine ⟨_, ?_, ext_elem acc sym iso cnt hacc⟩
+  cases iso with
+  | none =>
+    cases cnt with
+    | none =>
+      obtain ⟨hst, hes, his, hie, hpar⟩ := hpend
+      have hr : (Term.elem sym none none).render = sym := by simp [render_elem, isoR, renderCount]
+      rw [hr] at hs ⊢
+      apply elem_flushTo cc hcc T sub s hst
+      have hsl : slice s p.es (pre.length + sym.length) = .ok sym := slice_mid hs hes rfl
+      obtain ⟨p2, h1, h2, h3, h4⟩ := flushElem_ok T s (p := { p with ee := pre.length + sym.length })
+        (acc := acc) hsl hf
+      rw [hsym] at h1
+      exact ⟨p2, h1, h2.trans his, h3.trans hie, h4.trans hpar⟩
+    | some n =>
+      obtain ⟨hst, hes, hee, hcs, his, hie, hpar⟩ := hpend
+      have hr : (Term.elem sym none (some n)).render = sym ++ natDigits n := by
+        simp [render_elem, isoR, renderCount]
+      rw [hr] at hs ⊢
+      apply count_flushTo cc hcc T sub s hst
+      have hsl : slice s p.es p.ee = .ok sym :=
+        slice_mid (pre := pre) (post := natDigits n ++ rest) (by rw [hs]; simp) hes hee
+      have hc : slice s p.cs (pre.length + (sym ++ natDigits n).length) = .ok (natDigits n) :=
+        slice_mid (pre := pre ++ sym) (post := rest) (by rw [hs]; simp) (by simp only [hcs, List.length_append, List.length_cons, List.length_nil] <;> omega)
+          (by simp only [hcs, List.length_append, List.length_cons, List.length_nil] <;> omega)
+      obtain ⟨p2, h1, h2, h3, h4⟩ := flushCount_noiso_ok T s
+        (p := { p with ce := pre.length + (sym ++ natDigits n).length }) (acc := acc) hc hcnt his hie hsl hf
+      rw [hsym] at h1
+      exact ⟨p2, h1, h2, h3, h4.trans hpar⟩
+  | some k =>
+    simp only [isoOK] at hiso
+    obtain ⟨_, hk, hiso⟩ := hiso
+    cases cnt with
+    | none =>
+      obtain ⟨hst, hes, hee, his, hie, hpar⟩ := hpend
+      have hr : (Term.elem sym (some k) none).render = sym ++ 91 :: (natDigits k ++ [93]) := by
+        simp [render_elem, isoR, renderCount]
+      rw [hr] at hs ⊢
+      apply i2c_flushTo cc hcc T sub s hst
+      have hsl : slice s p.es p.ee = .ok sym :=
+        slice_mid (pre := pre) (post := 91 :: (natDigits k ++ [93]) ++ rest) (by rw [hs]; simp) hes hee
+      have hisl : slice s p.is p.ie = .ok (natDigits k) :=
+        slice_mid (pre := pre ++ sym ++ [91]) (post := 93 :: rest) (by rw [hs]; simp)
+          (by simp only [his, hie, List.length_append, List.length_cons, List.length_nil] <;> omega)
+          (by simp only [his, hie, List.length_append, List.length_cons, List.length_nil] <;> omega)
+      obtain ⟨p2, h1, h2, h3, h4⟩ := flushIso_ok T s (p := p) (acc := acc) hisl hk hiso hsl hf
+      rw [hsym] at h1
+      exact ⟨p2, h1, h2, h3, h4.trans hpar⟩
+    | some n =>
+      obtain ⟨hst, hes, hee, his, hie, hcs, hpar⟩ := hpend
+      have hr : (Term.elem sym (some k) (some n)).render
+          = sym ++ 91 :: (natDigits k ++ 93 :: natDigits n) := by
+        simp [render_elem, isoR, renderCount]
+      rw [hr] at hs ⊢
+      apply count_flushTo cc hcc T sub s hst
+      have hsl : slice s p.es p.ee = .ok sym :=
+        slice_mid (pre := pre) (post := 91 :: (natDigits k ++ 93 :: natDigits n) ++ rest)
+          (by rw [hs]; simp) hes hee
+      have hisl : slice s p.is p.ie = .ok (natDigits k) :=
+        slice_mid (pre := pre ++ sym ++ [91]) (post := 93 :: natDigits n ++ rest) (by rw [hs]; simp)
+          (by simp only [his, hie, List.length_append, List.length_cons, List.length_nil] <;> omega)
+          (by simp only [his, hie, List.length_append, List.length_cons, List.length_nil] <;> omega)
+      have hc : slice s p.cs (pre.length + (sym ++ 91 :: (natDigits k ++ 93 :: natDigits n)).length)
+          = .ok (natDigits n) :=
+        slice_mid (pre := pre ++ sym ++ [91] ++ natDigits k ++ [93]) (post := rest) (by rw [hs]; simp)
+          (by simp only [hcs, List.length_append, List.length_cons, List.length_nil] <;> omega)
+          (by simp only [hcs, List.length_append, List.length_cons, List.length_nil] <;> omega)
+      have hpos : 0 < (natDigits k).length := List.length_pos_iff.2 (natDigits_ne_nil k)
+      have hne : p.ie ≠ p.is := by rw [hie, his]; omega
+      obtain ⟨p2, h1, h2, h3, h4⟩ := flushCount_iso_ok T s
+        (p := { p with ce := pre.length + (sym ++ 91 :: (natDigits k ++ 93 :: natDigits n)).length })
+        (acc := acc) hc hcnt hne hisl hk hiso hsl hf
+      rw [hsym] at h1
+      exact ⟨p2, h1, h2, h3, h4.trans hpar⟩
+
+end
+
+section
+variable (cc : CharClass) (hcc : cc.AsciiOK) (T : Table) (hT : SymbolsOK cc T)
+  (sub : List Nat → Res Ents) (s : List Nat)
+include hcc hT
+
+theorem group_flush {body : Terms} {cnt : Option Nat} (hwf : WFt T (.group body cnt))
+    {pre rest : List Nat} (hs : s = pre ++ (Term.group body cnt).render ++ rest) {p : PState}
+    (hpend : Pending (.group body cnt) pre.length p) {acc : Ents} (hacc : acc.NoDupKeys)
+    (hsub : SubOK sub body) :
+    ∃ acc', FlushTo cc T sub s p acc (pre.length + (Term.group body cnt).render.length) acc' ∧
+      Ext acc (Term.group body cnt).denote (Term.group body cnt).mentioned acc' := by
+  obtain ⟨_, _, hcnt⟩ := wft_group hwf
+  obtain ⟨g, hg, hext⟩ := hsub
+  cases cnt with
+  | none =>
+    obtain ⟨hst, hgs, hge, his, hie, hpar⟩ := hpend
+    have hr : (Term.group body none).render = 40 :: (body.render ++ [41]) := by
+      simp [render_group, renderCount]
+    rw [hr] at hs ⊢
+    have hsl : slice s p.gs p.ge = .ok body.render :=
+      slice_mid (pre := pre ++ [40]) (post := 41 :: rest) (by rw [hs]; simp)
+        (by simp only [hgs, hge, List.length_append, List.length_cons, List.length_nil] <;> omega)
+        (by simp only [hgs, hge, List.length_append, List.length_cons, List.length_nil] <;> omega)
+    refine ⟨acc.addFrom g 1, g2gc_flushTo cc hcc T sub s hst hsl hg his hie hpar, ?_⟩
+    have := ext_group acc g body none 1 (by simp) hacc hext
+    rw [mapCounts_one] at this
+    exact this
+  | some n =>
+    obtain ⟨hst, hgs, hge, hgcs, his, hie, hpar⟩ := hpend
+    have hr : (Term.group body (some n)).render = 40 :: (body.render ++ 41 :: natDigits n) := by
+      simp [render_group, renderCount]
+    rw [hr] at hs ⊢
+    have hsl : slice s p.gs p.ge = .ok body.render :=
+      slice_mid (pre := pre ++ [40]) (post := 41 :: natDigits n ++ rest) (by rw [hs]; simp)
+        (by simp only [hgs, hge, List.length_append, List.length_cons, List.length_nil] <;> omega)
+        (by simp only [hgs, hge, List.length_append, List.length_cons, List.length_nil] <;> omega)
+    have hgc : slice s p.gcs (pre.length + (40 :: (body.render ++ 41 :: natDigits n)).length)
+        = .ok (natDigits n) :=
+      slice_mid (pre := pre ++ [40] ++ body.render ++ [41]) (post := rest) (by rw [hs]; simp)
+        (by simp only [hgcs, List.length_append, List.length_cons, List.length_nil] <;> omega)
+        (by simp only [hgcs, List.length_append, List.length_cons, List.length_nil] <;> omega)
+    exact ⟨_, gc_flushTo cc hcc T sub s hst hsl hg hgc hcnt his hie hpar,
+      ext_group acc g body (some n) (n : Int) (by simp) hacc hext⟩
+
+/-- (L2/L3) a pending term is flushed, adding exactly its denotation -/
+theorem term_flush (t : Term) (hwf : WFt T t) {pre rest : List Nat} (hs : s = pre ++ t.render ++ rest)
+    {p : PState} (hpend : Pending t pre.length p) {acc : Ents} (hacc : acc.NoDupKeys)
+    (hsub : ∀ b, b ≠ .nil → WF T b → b.render.length + 2 ≤ s.length → SubOK sub b) :
+    ∃ acc', FlushTo cc T sub s p acc (pre.length + t.render.length) acc' ∧
+      Ext acc t.denote t.mentioned acc' := by
+  cases t with
+  | elem sym iso cnt => exact elem_flush cc hcc T hT sub s hwf hs hpend hacc
+  | group body cnt =>
+    obtain ⟨hne, hwfb, _⟩ := wft_group hwf
+    refine group_flush cc hcc T hT sub s hwf hs hpend hacc (hsub body hne hwfb ?_)
+    rw [hs, render_group]
+    simp only [List.length_append, List.length_cons]
+    omega
+
+omit hcc in
+theorem term_starts (t : Term) (hwf : WFt T t) : ∃ c tl, t.render = c :: tl ∧ Starts c := by
+  cases t with
+  | elem sym iso cnt =>
+    obtain ⟨e, c0, symtl, _, _, _, _, hs0, hup, _⟩ := elem_facts hT hwf
+    refine ⟨c0, symtl ++ (isoR iso ++ renderCount cnt), ?_, Or.inl (isUpperStart_of_upper hup)⟩
+    rw [render_elem, hs0]; rfl
+  | group body cnt => exact ⟨40, _, render_group body cnt, Or.inr rfl⟩
+
+omit hcc in
+theorem terms_starts (ts : Terms) (hne : ts ≠ .nil) (hwf : WF T ts) :
+    ∃ c tl, ts.render = c :: tl ∧ Starts c := by
+  cases ts with
+  | nil => exact absurd rfl hne
+  | cons t ts' =>
+    obtain ⟨c, tl, hr, hc⟩ := term_starts cc T hT t (wf_cons hwf).1
+    exact ⟨c, tl ++ ts'.render, by rw [render_cons, hr]; rfl, hc⟩
+
+/-- (L4, one nesting level) from the state just after the first character of `ts`, the loop followed by
+    the end-of-input `match` adds exactly the denotation of `ts` -/
+theorem level (hsub : ∀ b, b ≠ .nil → WF T b → b.render.length + 2 ≤ s.length → SubOK sub b) :
+    (ts : Terms) → ts ≠ .nil → WF T ts → ∀ (pre : List Nat) (c : Nat) (tl : List Nat) (p : PState)
+      (acc : Ents), ts.render = c :: tl → s = pre ++ ts.render → StartAt c pre.length p → acc.NoDupKeys →
+      ∃ p' acc', ploop cc T sub s tl (pre.length + 1) p acc = .ok (p', acc') ∧
+        ∃ ents, pfinish T sub s p' acc' = .ok ents ∧ Ext acc ts.denote ts.mentioned ents
+  | .nil, hne, _, _, _, _, _, _, _, _, _, _ => absurd rfl hne
+  | .cons t ts', _, hwf, pre, c, tl, p, acc, hr, hs, hstart, hacc => by
+    obtain ⟨hwt, hwts⟩ := wf_cons hwf
+    obtain ⟨c1, tl1, hr1, _⟩ := term_starts cc T hT t hwt
+    rw [render_cons] at hs
+    rw [render_cons, hr1, List.cons_append] at hr
+    injection hr with hc htl
+    subst hc
+    obtain ⟨p1, hl1, hpend⟩ := term_pending cc hcc T hT sub s t hwt hr1 acc hstart
+    obtain ⟨acc1, ⟨hstep, hend⟩, hext1⟩ :=
+      term_flush cc hcc T hT sub s t hwt (rest := ts'.render) (by rw [hs, List.append_assoc]) hpend hacc hsub
+    have hden : (Terms.cons t ts').denote = fun k => t.denote k + ts'.denote k := by
+      funext k; simp only [Terms.denote]
+    have hmen : (Terms.cons t ts').mentioned = t.mentioned ++ ts'.mentioned := by
+      simp only [Terms.mentioned]
+    have hlen1 : t.render.length = tl1.length + 1 := by rw [hr1]; rfl
+    cases hts : ts' with
+    | nil =>
+      subst hts
+      rw [render_nil, List.append_nil] at htl hs
+      subst htl
+      refine ⟨p1, acc, hl1, acc1, hend (by rw [hs, List.length_append]), ?_⟩
+      rw [hden, hmen]
+      refine ⟨hext1.nodup, ?_, ?_⟩
+      · intro k; rw [hext1.get]; simp only [Terms.denote]; omega
+      · intro k hk
+        rcases hext1.keys k hk with h | h
+        · exact Or.inl h
+        · exact Or.inr (List.mem_append_left _ h)
+    | cons t2 ts2 =>
+      have hne2 : ts' ≠ .nil := by rw [hts]; intro h; cases h
+      obtain ⟨c2, tl2, hr2, hst2⟩ := terms_starts cc T hT ts' hne2 hwts
+      obtain ⟨p2, hp2, hstart2⟩ := hstep c2 hst2
+      have hpl : (pre ++ t.render).length = pre.length + t.render.length := List.length_append
+      rw [← hpl] at hstart2 hp2
+      obtain ⟨p', acc', hl2, ents, hfin, hext2⟩ :=
+        level hsub ts' hne2 hwts (pre ++ t.render) c2 tl2 p2 acc1 hr2 (by rw [hs, List.append_assoc])
+          hstart2 hext1.nodup
+      have hidx : pre.length + 1 + tl1.length = (pre ++ t.render).length := by rw [hpl, hlen1]; omega
+      refine ⟨p', acc', ?_, ents, hfin, ?_⟩
+      · rw [← htl, hr2, ploop_append_ok cc T sub s hl1, hidx, ploop_cons_ok cc T sub s hp2]
+        exact hl2
+      · rw [← hts, hden, hmen]
+        exact hext1.trans hext2
+
+end
+
+/-! ## Fuel, and the theorem -/
+
+theorem parseA_succ_of {cc : CharClass} {T : Table} {fuel : Nat} {s tl : List Nat} {c : Nat}
+    {p0 p' : PState} {acc' ents : Ents} (hs : s = c :: tl)
+    (h1 : pstep cc T (parseA cc T fuel) s {} [] 0 c = .ok (p0, []))
+    (h2 : ploop cc T (parseA cc T fuel) s tl (0 + 1) p0 [] = .ok (p', acc'))
+    (h3 : pfinish T (parseA cc T fuel) s p' acc' = .ok ents) :
+    parseA cc T (fuel + 1) s = .ok ents := by
+  have h : ploop cc T (parseA cc T fuel) s s 0 {} [] = .ok (p', acc') := by
+    have : ploop cc T (parseA cc T fuel) s s 0 {} [] = ploop cc T (parseA cc T fuel) s (c :: tl) 0 {} [] := by
+      rw [← hs]
+    rw [this, ploop_cons_ok cc T _ s h1]
+    exact h2
+  unfold parseA
+  rw [h]
+  exact h3
+
+/-- (L4) enough fuel: any recursion budget exceeding the length of the text suffices -/
+theorem parseA_ok (cc : CharClass) (hcc : cc.AsciiOK) (T : Table) (hT : SymbolsOK cc T) :
+    ∀ (fuel : Nat) (ts : Terms), ts ≠ .nil → WF T ts → ts.render.length < fuel →
+      ∃ ents, parseA cc T fuel ts.render = .ok ents ∧ Ext [] ts.denote ts.mentioned ents := by
+  intro fuel
+  induction fuel with
+  | zero => intro ts _ _ h; omega
+  | succ fuel ih =>
+    intro ts hne hwf hlen
+    obtain ⟨c, tl, hr, hst⟩ := terms_starts cc T hT ts hne hwf
+    obtain ⟨p0, hp0, hstart0⟩ := step_new_start cc T (parseA cc T fuel) ts.render
+      (p := {}) (acc := []) (j := 0) rfl rfl rfl rfl hst
+    have hsub : ∀ b, b ≠ .nil → WF T b → b.render.length + 2 ≤ ts.render.length →
+        SubOK (parseA cc T fuel) b := fun b hb hwb hl => ih b hb hwb (by omega)
+    obtain ⟨p', acc', hl, ents, hfin, hext⟩ :=
+      level cc hcc T hT (parseA cc T fuel) ts.render hsub ts hne hwf [] c tl p0 [] hr rfl hstart0
+        Ents.nodup_nil
+    exact ⟨ents, parseA_succ_of hr hp0 hl hfin, hext⟩
+
+/-- **C01.** A well-formed formula parses to exactly what it denotes: the parser accepts the text of
+    every non-empty well-formed term list, the composition it returns gives every key the count the
+    grammar assigns, and it has no entries other than for the specifications the formula mentions. -/
+theorem parse_render (cc : CharClass) (hcc : cc.AsciiOK) (T : Table) (hT : SymbolsOK cc T) (ts : Spec.Terms)
+    (hne : ts ≠ .nil) (hwf : WF T ts) :
+    ∃ ents, parseFormula cc T (ts.render) = .ok ents ∧ (∀ k, ents.get k = ts.denote k) ∧
+            (∀ k ∈ ents.keys, k ∈ ts.mentioned) := by
+  obtain ⟨ents, h, hext⟩ := parseA_ok cc hcc T hT (ts.render.length + 1) ts hne hwf (by omega)
+  refine ⟨ents, h, ?_, ?_⟩
+  · intro k; rw [hext.get]; simp
+  · intro k hk
+    rcases hext.keys k hk with h | h
+    · simp [Ents.keys] at h
+    · exact h
+
+/-- the parsed composition also has pairwise distinct keys -/
+theorem parse_render_nodup (cc : CharClass) (hcc : cc.AsciiOK) (T : Table) (hT : SymbolsOK cc T)
+    (ts : Spec.Terms) (hne : ts ≠ .nil) (hwf : WF T ts) :
+    ∃ ents, parseFormula cc T (ts.render) = .ok ents ∧ ents.NoDupKeys := by
+  obtain ⟨ents, h, hext⟩ := parseA_ok cc hcc T hT (ts.render.length + 1) ts hne hwf (by omega)
+  exact ⟨ents, h, hext.nodup⟩
+
+/-! ## The hypotheses are checkable
+
+`SymbolsOK` is decidable as it stands (instance above).  `WF` is equivalent to a Boolean checker, and
+`SymbolsOK` follows, for every `cc` that is right on ASCII, from a `cc`-free Boolean check of the table. -/
+
+def countOKB : Option Nat → Bool
+  | none => true
+  | some n => decide (n ≤ 2147483647)
+
+def isoOKB (e : Elem) : Option Nat → Bool
+  | none => true
+  | some i => i != 0 && decide (i ≤ 65535) && (e.iso? i).isSome
+
+def isNilB : Terms → Bool
+  | .nil => true
+  | .cons _ _ => false
+
+mutual
+  def wfTermB (T : Table) : Term → Bool
+    | .elem sym iso cnt =>
+      (match T.find? sym with
+        | some e => e.sym == sym && isUpperHead sym && isoOKB e iso
+        | none => false) && countOKB cnt
+    | .group body cnt => !isNilB body && wfTermsB T body && countOKB cnt
+  def wfTermsB (T : Table) : Terms → Bool
+    | .nil => true
+    | .cons t ts => wfTermB T t && wfTermsB T ts
+end
+
+theorem countOKB_iff (c : Option Nat) : countOKB c = true ↔ countOK c := by
+  cases c <;> simp [countOKB, countOK]
+
+theorem isoOKB_iff (e : Elem) (i : Option Nat) : isoOKB e i = true ↔ isoOK e i := by
+  cases i <;> simp [isoOKB, isoOK, and_assoc]
+
+theorem isNilB_iff (b : Terms) : isNilB b = false ↔ b ≠ .nil := by
+  cases b <;> simp [isNilB]
+
+mutual
+  theorem wfTermB_iff (T : Table) : (t : Term) → (wfTermB T t = true ↔ WFt T t)
+    | .elem sym iso cnt => by
+      simp only [wfTermB, WFt, Bool.and_eq_true, countOKB_iff]
+      cases T.find? sym with
+      | none => simp
+      | some e => simp only [Bool.and_eq_true, beq_iff_eq, isoOKB_iff, and_assoc]
+    | .group body cnt => by
+      simp only [wfTermB, WFt, Bool.and_eq_true, countOKB_iff, Bool.not_eq_true', isNilB_iff,
+        wfTermsB_iff T body, and_assoc]
+  theorem wfTermsB_iff (T : Table) : (ts : Terms) → (wfTermsB T ts = true ↔ WF T ts)
+    | .nil => by simp [wfTermsB, WF]
+    | .cons t ts => by
+      simp only [wfTermsB, WF, Bool.and_eq_true, wfTermB_iff T t, wfTermsB_iff T ts]
+end
+
+instance (T : Table) (ts : Terms) : Decidable (WF T ts) := decidable_of_iff _ (wfTermsB_iff T ts)
+instance (T : Table) (t : Term) : Decidable (WFt T t) := decidable_of_iff _ (wfTermB_iff T t)
+
+/-- `cc`-free shape check: ASCII only, upper-case first, then no upper-case letter, digit, `[`, `(`, `)` -/
+def symShapeAscii : Sym → Bool
+  | [] => false
+  | c :: rest => isAsciiUpper c &&
+      rest.all (fun c => decide (c < 128) && !isAsciiUpper c && !isAsciiDigit c && c != 91 && c != 40 && c != 41)
+
+def symbolsOKAscii (T : Table) : Bool :=
+  T.all (fun e => !isUpperHead e.sym || (T.find? e.sym == some e && symShapeAscii e.sym))
+
+theorem symbolsOK_of_ascii (cc : CharClass) (hcc : cc.AsciiOK) (T : Table)
+    (h : symbolsOKAscii T = true) : SymbolsOK cc T := by
+  intro e he hhead
+  simp only [symbolsOKAscii, List.all_eq_true] at h
+  have h' := h e he
+  simp only [hhead, Bool.not_true, Bool.false_or, Bool.and_eq_true, beq_iff_eq] at h'
+  obtain ⟨h1, h2⟩ := h'
+  refine ⟨h1, ?_⟩
+  cases hs : e.sym with
+  | nil => rw [hs] at h2; simp [symShapeAscii] at h2
+  | cons c rest =>
+    rw [hs] at h2
+    simp only [symShapeAscii, Bool.and_eq_true, List.all_eq_true, decide_eq_true_eq,
+      Bool.not_eq_true', bne_iff_ne, ne_eq] at h2
+    simp only [symShape, Bool.and_eq_true, List.all_eq_true]
+    refine ⟨h2.1, ?_⟩
+    intro x hx
+    obtain ⟨⟨⟨⟨⟨hlt, hu⟩, hd⟩, h91⟩, h40⟩, h41⟩ := h2.2 x hx
+    have hnum : cc.numeric x = false := by rw [(hcc x hlt).2.1]; exact hd
+    simp [inert, hu, hnum, h91, h40, h41]
+
 end Chem
